@@ -189,19 +189,12 @@ func (a *c05) isJobBody(fn *ssa.Function) bool {
 	if par == nil {
 		return false
 	}
-	ok := false
-	allInstrs(par, func(in ssa.Instruction) {
-		mc, isMC := in.(*ssa.MakeClosure)
-		if !isMC || mc.Fn != fn {
-			return
+	for _, u := range a.funcValueUses(fn) {
+		if ct, isCT := u.(*ssa.ChangeType); isCT && iface != nil && types.Implements(ct.Type(), iface) {
+			return true
 		}
-		for _, r := range refs(mc) {
-			if ct, isCT := r.(*ssa.ChangeType); isCT && iface != nil && types.Implements(ct.Type(), iface) {
-				ok = true
-			}
-		}
-	})
-	return ok
+	}
+	return false
 }
 
 func (a *c05) checkJobAccounting() {
@@ -238,19 +231,14 @@ func (a *c05) checkJobAccounting() {
 		var gos []ssa.Instruction
 		other := ""
 		if par := fn.Parent(); par != nil {
-			allInstrs(par, func(in ssa.Instruction) {
-				mc, ok := in.(*ssa.MakeClosure)
-				if !ok || mc.Fn != fn {
-					return
+			// a closure (with or without captured variables) used as the operand of go statements
+			for _, u := range a.funcValueUses(fn) {
+				if g, isGo := u.(*ssa.Go); isGo && staticCallee(g) == fn {
+					gos = append(gos, g)
+				} else {
+					other = "the closure is used other than as the operand of a go statement at " + a.pos(u)
 				}
-				for _, u := range refs(mc) {
-					if g, isGo := u.(*ssa.Go); isGo && g.Call.Value == mc {
-						gos = append(gos, g)
-					} else {
-						other = "the closure is used other than as the operand of a go statement at " + a.pos(u)
-					}
-				}
-			})
+			}
 		} else {
 			if a.addrTaken[fn] || isExportedFunc(fn) {
 				other = "the function is exported or used as a value"
